@@ -69,12 +69,19 @@ class DSock:
         return self.inbox.pop(0)
 
     def sendall(self, data):
+        # sendall is not atomic: the bytes go out in portions (here two, cut inside the first line), other threads run in between
         s = dsched.sched()
         s.yield_point('sock.send')
         if self.closed:
             self.dropped.append((s.steps, data))
             raise BrokenPipeError('closed')
-        self.sent.append((s.steps, data))
+        cut = min(len(data) // 2, max(1, data.find(b'\n') // 2)) if len(data) > 8 else 0
+        if cut:
+            self.sent.append((s.steps, data[:cut]))
+            s.yield_point('sock.send-rest')
+            if self.closed:
+                raise BrokenPipeError('closed')
+        self.sent.append((s.steps, data[cut:]))
 
     def shutdown(self, how):
         pass
@@ -90,6 +97,7 @@ class DSock:
 
 
 DELAYS = [0, 0, 0, 0.5, 2.0]
+N_HELP_LINES = 11     # lines of frappy.protocol.messages.HelpMessage (checked in run_scenario)
 
 
 @st.composite
@@ -102,7 +110,7 @@ def scenario(draw):
     for _ in range(draw(st.integers(1, 3))):
         script = []
         for _ in range(draw(st.integers(1, 6))):
-            kind = draw(st.sampled_from(['activate', 'activate', 'deactivate', 'deactivate', 'idn', 'ping']))
+            kind = draw(st.sampled_from(['activate', 'activate', 'activate', 'deactivate', 'deactivate', 'deactivate', 'idn', 'ping', 'ping', 'help']))
             if kind in ('activate', 'deactivate'):
                 script.append([kind, draw(st.sampled_from(scopes)), draw(st.sampled_from(DELAYS))])
             else:
@@ -130,6 +138,8 @@ def run_scenario(case, preempt=None):
     from frappy.errors import HardwareError
     from vf.nodekit import Kit, FakeTcpServer, quiet_handler
     quiet_handler()
+    from frappy.protocol.messages import HelpMessage
+    assert len(HelpMessage.splitlines()) == N_HELP_LINES
     s = dsched.Sched(case.get('schedule', ()), preempt=preempt, horizon=3600)
     out = {'sched': s, 'truth': [], 'logs': {}, 'error': None, 'final': {}}
     counter = [0]
@@ -171,7 +181,7 @@ def run_scenario(case, preempt=None):
                     kind, scope = item[0], item[1]
                     if len(item) > 2 and item[2]:
                         dsched.v_sleep(item[2])
-                    line = {'activate': 'activate', 'deactivate': 'deactivate', 'idn': '*IDN?', 'ping': 'ping x'}[kind]
+                    line = {'activate': 'activate', 'deactivate': 'deactivate', 'idn': '*IDN?', 'ping': 'ping x', 'help': 'help'}[kind]
                     if scope and kind in ('activate', 'deactivate'):
                         line += ' ' + scope
                     sock.push(line.encode() + b'\n')
@@ -225,15 +235,28 @@ def run_scenario(case, preempt=None):
     return out
 
 
+KNOWN_ACTIONS = {'active', 'inactive', 'pong', 'update', 'error_update', '_', 'error_activate', 'error_deactivate', 'error_ping', 'error_help',
+                 'describing', 'reply', 'changed', 'done', 'helping'}
+
+
 def parse(sent):
-    """[(step, bytes)] -> [(step, action, spec, data)] one per line (a send is exactly one line: checked)"""
+    """[(step, bytes)] portions in the order they reached the peer -> [(step, action, spec, data)] one per line of the byte stream;
+    a line which is not a well formed message (another message landed inside it) is marked '?split-line'"""
     res = []
+    buf = b''
     for step, data in sent:
-        if not data.endswith(b'\n') or data.count(b'\n') != 1:
-            res.append((step, '?split-line', None, data))
-            continue
-        parts = data[:-1].decode('utf-8').split(' ', 2) + ['', '']
-        res.append((step, parts[0], parts[1] or None, json.loads(parts[2]) if parts[2] else None))
+        buf += data
+        while b'\n' in buf:
+            line, buf = buf.split(b'\n', 1)
+            try:
+                parts = line.decode('utf-8').split(' ', 2) + ['', '']
+                if parts[0] not in KNOWN_ACTIONS and not parts[0].startswith('ISSE'):
+                    raise ValueError('action')
+                res.append((step, parts[0], parts[1] or None, json.loads(parts[2]) if parts[2] and not parts[0].startswith('ISSE') else None))
+            except ValueError:
+                res.append((step, '?split-line', None, line))
+    if buf:
+        res.append((sent[-1][0], '?split-line', None, buf))
     return res
 
 
@@ -310,6 +333,8 @@ def check(ctx, case, preempt=None):
                 ctx.finding('superfluous-reply', sub, f'conn {ci}: {action} {spec}')
                 return
             kind, scope = script[ri][0], script[ri][1]
+            if kind == 'help' and action == '_':
+                continue      # the help text: several lines, closed by the reply 'helping'
             ri += 1
             for sstep, skey, text, why in suspects:
                 if not (kind == 'activate' and action == 'active' and in_scope({scope}, skey[0], wire(skey[1]))):
@@ -345,7 +370,7 @@ def check(ctx, case, preempt=None):
                         ended[k] = (step, 'ident-reply')
                 subs.clear()
                 since.clear()
-            elif action.startswith('error_') or kind == 'ping':
+            elif action.startswith('error_') or kind == 'ping' or (kind == 'help' and action == 'helping'):
                 pass
             else:
                 ctx.finding('unexpected-reply', sub, f'conn {ci}: request {kind} {scope} -> {action} {spec}')
